@@ -61,7 +61,13 @@ class RoutingMonitor:
             aft = {x['oid']: x for x in rec.after}
             changed = [(b['state'], aft[b['oid']]['state'] if b['oid'] in aft else 'gone') for b in rec.before
                        if b['oid'] not in aft or aft[b['oid']]['state'] != b['state'] or aft[b['oid']]['peer_msg_id'] != b['peer_msg_id']]
-            if rec.routed or rec.sent or rec.nl or len(rec.before) != len(rec.after) or changed:
+            # the timer sweep runs in the same loop iteration: what a DUE timer does (retransmission, give-up, DPD, rekey) is not an effect of the datagram
+            timer_due = any((b['state'].endswith('_REQ_SENT') and b['retransmit_at'] <= rec.vtime) or
+                            (b['state'] == 'ESTABLISHED' and min(b['dpd'], b['rekey_at'], b['delete_at']) <= rec.vtime) for b in rec.before)
+            replies = [d_ for d_ in rec.sent if d_[1] == src]
+            if timer_due:
+                ck.count('route.unknown_spi_while_a_timer_was_due')
+            if rec.routed or replies or (not timer_due and (rec.sent or rec.nl or len(rec.before) != len(rec.after) or changed)):
                 ck.violation('route:unknown-spi-had-an-effect', {'routed': len(rec.routed), 'sent': len(rec.sent), 'nl': len(rec.nl),
                                                                  'changed': changed, 'trace': sim.trace[-6:]}, case)
 
@@ -228,15 +234,18 @@ def run(ck):
     # (a3) every request kind left unanswered: the IKE_SA must leave the table when its retransmissions are exhausted
     kinds = ['acquire', 'expire_soft', 'expire_hard', 'rekey_ike', 'delete_ike', 'dpd', 'rekey_then_lost_delete']
     n3 = 0
+    junk = bytes(8) + b'\x11' * 8 + bytes([46, 0x20, 37, 0x08]) + (7).to_bytes(4, 'big') + (28).to_bytes(4, 'big')
     for x in 'AB':
         for kind in kinds:
-            for dt in (1.1, 3.7):
+            for dt in (1.1, 3.7, 0.7):
                 n3 += 1
                 if not ck.mine(n3):
                     continue
+                # dt 0.7: the network is never quiet - EVERY loop iteration is woken by an event (a datagram for an unknown SPI or an unhandled kernel message)
+                noisy = dt == 0.7
                 sc = walk.Scenario(base + 9000 + n3, mons)
                 sim = sc.sim
-                sim.case['family'] = ('unanswered', x, kind, dt)
+                sim.case['family'] = ('unanswered', x, kind, dt, 'noisy' if noisy else 'quiet')
                 ep = sc.ep(x)
                 if kind == 'rekey_then_lost_delete':
                     sc.trigger(x, 'rekey_ike')
@@ -245,12 +254,19 @@ def run(ck):
                 else:
                     sc.trigger(x, kind)
                 sim.net.clear()
-                for _ in range(int((monitors.retransmission_budget() + 50) / dt)):
+                for it in range(int((monitors.retransmission_budget() + 50) / dt)):
                     sim.clock.advance(dt)
-                    ep.step('tick')
+                    if not noisy:
+                        ep.step('tick')
+                    elif it % 2:
+                        ep.step('udp', udp=('198.51.100.99', str(ep.addrs[0]), junk))
+                    else:
+                        ep.step('kernel', xfrm_event=bytes([16, 0, 0, 0, 0x1B, 0, 0, 0]) + bytes(8))
                     sim.net.clear()
                 left = [q.state.name for q in ep.ctl.ike_sas if q.state.name.endswith('_REQ_SENT')]
                 ck.count('unanswered.histories')
+                if noisy:
+                    ck.count('unanswered.histories_on_a_network_that_is_never_quiet')
                 ck.nontrivial(('unanswered', x, kind, dt))
                 if left:
                     ck.violation(f'table-keeps-ike-sa-beyond-retransmission-timeout:{left[0]}:unanswered-{kind}', {'left': left, 'trace': sim.trace[-8:]}, sim.case)
@@ -510,6 +526,7 @@ def verdict(ck):
     ck.floor('SPI collision set-ups inside one IKE_SA', ck.counters['collision.same_ike_sa_setups'], 6)
     ck.floor('held-DELETE histories', ck.counters['held.leaves'], 40)
     ck.floor('unanswered-request histories', ck.counters['unanswered.histories'], 25)
+    ck.floor('unanswered-request histories in which every loop iteration is woken by an event', ck.counters['unanswered.histories_on_a_network_that_is_never_quiet'], 12)
     ck.floor('acquire-while-busy histories', ck.counters['busy.leaves'], 15)
     ck.floor('removals of ended IKE_SAs judged', ck.counters['table.removals_of_ended_ike_sas'], 500)
     return None
